@@ -232,6 +232,7 @@ def run(ctx, rep):
     rep.floor("R-COUNT-ADDR", 1, "one instance per run")
     balance.rule_use_after_release(ctx, rep)
     rep.floor("R-USE-AFTER-RELEASE", 1, "the one decrementing body")
+    balance.rule_release_retarget(ctx, rep)  # (the same for a hand-written release-then-store through `&mut Handle`: `clone_from` as `drop_in_place(self); ptr::write(self, new)`)
     balance.rule_writeback(ctx, rep)  # "no thread touches the value or its count after the memory has been released": a re-pointed duplicate of a lent handle must reach the caller's place on every exit
     rep.floor("R-WRITEBACK", 0, "OffsetArc::make_mut today; a copy-on-write that never moves the handle out of its place has nothing to write back")
     rep.floor("R-ORD-1", 1, "one decrement")
